@@ -119,12 +119,12 @@ class Schema2DF(Schema2Base):
         df = self.output[df_key]
         tag_id = entry.attributes.get(HedKey.HedID, "")
         new_row = {
-            constants.hed_id: f"{tag_id}",
+            constants.hed_id: f"{tag_id}" if include_props else "",
             constants.name: entry.name,
             constants.subclass_of: self._get_subclass_of(entry),
-            constants.attributes: self._format_tag_attributes(entry.attributes),
-            constants.description: entry.description,
-            constants.equivalent_to: self._get_tag_equivalent_to(entry),
+            constants.attributes: self._format_tag_attributes(entry.attributes) if include_props else "",
+            constants.description: entry.description if include_props else "",
+            constants.equivalent_to: self._get_tag_equivalent_to(entry) if include_props else "",
         }
         # Handle the special case of units, which have the extra unit class
         if hasattr(entry, "unit_class_entry"):
